@@ -750,6 +750,51 @@ fn agreeing_setters(ctx: &Ctx, rounds: usize) {
     }
 }
 
+/// Tier E3: "echoed as applied" under contention. One client sends set_conn_timeout requests and checks every
+/// echo against the clamp of what it asked for, while two other clients keep setting a different value.
+fn echo_under_contention(ctx: &Ctx, requests: usize) {
+    use std::sync::atomic::{AtomicBool, Ordering};
+    if ctx.failed() {
+        return;
+    }
+    let cfg = DynamicConfig::new();
+    let stop = AtomicBool::new(false);
+    let mut wrong: Vec<String> = Vec::new();
+    std::thread::scope(|s| {
+        for _ in 0..2 {
+            let cfg = cfg.clone();
+            let stop = &stop;
+            s.spawn(move || {
+                while !stop.load(Ordering::Relaxed) {
+                    cfg.set_conn_timeout_ms(7000);
+                }
+            });
+        }
+        for i in 0..requests {
+            let ask: u64 = [10u64, 1000, 2500, 59_999, 60_000, 60_001, 3_000_000][i % 7];
+            let want = ask.clamp(1000, 60_000);
+            let line = format!(r#"{{"jsonrpc":"2.0","id":{i},"method":"set_conn_timeout","params":{{"ms":{ask}}}}}"#);
+            if let Some(r) = dispatch(&cfg, None, None, &line) {
+                let v: serde_json::Value = serde_json::from_str(&r.to_json()).unwrap_or(serde_json::Value::Null);
+                // the applied value is echoed somewhere in the result: any number in it that is a timeout must be ours
+                let text = v["result"].to_string();
+                if !text.contains(&want.to_string()) && wrong.len() < 3 {
+                    wrong.push(format!("asked {ask} (applied {want}), answered {text}"));
+                }
+            }
+        }
+        stop.store(true, Ordering::Relaxed);
+    });
+    ctx.extra("echo_under_contention", json!({"requests": requests, "wrong_echoes": wrong.len()}));
+    if let Some(w) = wrong.first() {
+        ctx.report_violation(
+            "echo-under-contention",
+            &crate::rt::Violation { sig: "echo-not-as-applied".into(), msg: format!("set_conn_timeout while two other clients keep setting 7000: {w}") },
+            json!({"stress": true, "example": w}),
+        );
+    }
+}
+
 #[derive(Default)]
 struct PartStatsLite {
     evaluations: u64,
@@ -773,6 +818,10 @@ pub fn run(ctx: &Ctx) -> &'static str {
             || match part.as_str() {
                 "agreeing-setters" => {
                     agreeing_setters(ctx, 400_000);
+                    true
+                }
+                "echo-under-contention" => {
+                    echo_under_contention(ctx, 2_000_000);
                     true
                 }
                 "concurrent-stress" => {
@@ -823,6 +872,7 @@ pub fn run(ctx: &Ctx) -> &'static str {
         concurrent_stress(ctx);
     }
     agreeing_setters(ctx, ctx.tier.pick(40_000, 2_000_000));
+    echo_under_contention(ctx, ctx.tier.pick(300_000, 5_000_000));
     crate::props::e2e::run(ctx, crate::props::e2e::Phase::Control, ctx.tier.pick(1, 4));
     if ctx.tier == Tier::Thorough {
         crate::fuzzrun::campaign(ctx, "c18_control", 300);
